@@ -21,7 +21,7 @@ def locals_reference():
     the rule instances were confirmed on; sa/names.py renames a later tree's locals to these before the rules look."""
     import ast
     from sa import names, normal
-    os.environ["VERIF_NORMAL"] = "doc,ann,cmp,flip,early"
+    os.environ["VERIF_NORMAL"] = ",".join(x for x in normal.ACTIVE if x != "names")
     mods = {}
     root = "/repo"
     for d, _, files in os.walk(os.path.join(root, "swcgeom")):
